@@ -24,6 +24,8 @@ type Sched struct {
 	MaxStep int
 	free    bool
 	frozen  bool
+	running uint64
+	schedG  uint64
 	stop    bool
 	wake    chan struct{}
 	// OnStep, when set, is called with the released task before it runs.
@@ -173,6 +175,9 @@ func (s *Sched) Release() {
 // parked (every goroutine has exited or is durably blocked on something that
 // is not a yield point).
 func (s *Sched) Step() bool {
+	if s.schedG == 0 {
+		s.schedG = curGID()
+	}
 	synctest.Wait()
 	s.mu.Lock()
 	if len(s.parked) == 0 {
@@ -181,13 +186,18 @@ func (s *Sched) Step() bool {
 	}
 	sort.SliceStable(s.parked, func(i, j int) bool { return s.parked[i].Name < s.parked[j].Name })
 	n := len(s.parked)
+	s.mu.Unlock()
+	// nothing else runs now (every goroutine is durably blocked), so the
+	// parked list cannot change while the tape is consulted without the lock
 	i := 0
 	if n > 1 {
 		i = s.Choose(n, "sched")
 	}
+	s.mu.Lock()
 	t := s.parked[i]
 	s.parked = append(s.parked[:i], s.parked[i+1:]...)
 	s.Steps++
+	s.running = t.gid
 	over := s.Steps > s.MaxStep
 	s.mu.Unlock()
 	if s.OnStep != nil {
@@ -240,4 +250,13 @@ func (s *Sched) Parked() []string {
 	}
 	sort.Strings(out)
 	return out
+}
+
+// OwnsTape reports whether the calling goroutine may draw from the tape now:
+// it is the scheduler itself or the task released last.
+func (s *Sched) OwnsTape() bool {
+	g := curGID()
+	s.mu.Lock()
+	defer s.mu.Unlock()
+	return s.free || g == s.schedG || g == s.running
 }
